@@ -188,6 +188,18 @@ def run_C01(ctx):
         ["(1e999-1e999) %s 2" % op for op in "+-*/%^"] + ["(1e999-1e999)!", "1e999!", "(0-1e999)!", "170!", "171!", "1e18!", "18446744073709551616!"]
     do_stream(ctx, "eval", props.expr_cases("e", ex), P)
     do_stream(ctx, "tabs", (gen.hist_case("t%d" % t, ["x\t=\t1\n\tx +\t\n"], tab=t) for t in range(256)), P)
+    # nesting up to the property's bound of 32 with every bracket / operator / call form, and 64-token statements
+    nest = []
+    for d in (1, 2, 8, 16, 31, 32):
+        for o, c in (("(", ")"), ("|", "|"), ("⌈", "⌉"), ("⌊", "⌋"), ("[", "]"), ("sqrt(", ")"), ("f(", ")"), ("-(", ")"), ("√(", ")"), ("(2*", ")"), ("[1,", "]")):
+            nest.append(o * d + "2" + c * d)
+            nest.append(o * d + "2" + c * (d - 1))          # one closer missing
+        nest += ["-" * d + "3", "√" * d + "16", "3" + "!" * d, "^".join(["2"] * d), " - ".join(["1"] * d), "f(" * d + "1" + ", 1)" * d,
+                 "x" + "(1)" * d, "[" + ",".join(["1"] * d) + "]", "[" + ";".join(["1"] * d) + "]", "1 " + "as km " * d, "f" + "(" * d]
+    nest += [" + ".join(["x * 2"] * 16), " ".join(["1"] * 64), "f(" + ", ".join(["1"] * 62) + ")", ";".join(["x"] * 64), "\n".join(["x = x + 1"] * 64),
+             "[" + ";".join(",".join(["1"] * 5) for _ in range(5)) + "] * " + "[" + ";".join(",".join(["2"] * 5) for _ in range(5)) + "]",
+             "inverse([2,1,0,0,0;1,2,1,0,0;0,1,2,1,0;0,0,1,2,1;0,0,0,1,2])", "determinant(identity(5) * 3)"]
+    do_stream(ctx, "nesting", props.expr_cases("n", nest), P)
     do_stream(ctx, "hist", itertools.chain(props.hist_exhaustive(2 if quick else 3), props.hist_random(rng, 300 if quick else 5000)), P)
 
 
@@ -261,9 +273,13 @@ def run_C04(ctx):
     rng, quick = ctx["rng"], ctx["quick"]
     sp = spellings(ctx)
     P = props.proj_tok(True)
-    L = 5 if quick else 6
-    do_stream(ctx, "tok-exhaustive", gen.tok_exhaustive(L, tabs=(4,)), P, oracle=oracles.oracle_scanner,
-              exhaustive="all strings over the 17-character scanner alphabet up to length %d (tab 4)" % L)
+    L = 5
+    do_stream(ctx, "tok-exhaustive", gen.tok_exhaustive(L, tabs=(4,) if quick else (0, 4, 255)), P, oracle=oracles.oracle_scanner,
+              exhaustive="all strings over the 17-character scanner alphabet up to length %d (tab %s)" % (L, "4" if quick else "0, 4, 255"))
+    if not quick:
+        core_alpha = ["1", "e", "-", ".", "x", "m", "°", " ", "\n", "+"]
+        do_stream(ctx, "tok-exhaustive-7", ("tok y%d 4 %s" % (n, hx("".join(c))) for n, c in enumerate(itertools.product(core_alpha, repeat=7))), P,
+                  exhaustive="all strings of length 7 over the 10 characters that drive the number / word / blank branches (10^7)")
     do_stream(ctx, "tok-tabs", itertools.chain(gen.tok_exhaustive(3, tabs=(0, 1, 255)),
                                                ("tok tb%d %d %s" % (t, t, hx("\tx\t\t12.5e3\t\n\t1.\t#")) for t in range(256))), P,
               oracle=oracles.oracle_scanner)
@@ -318,7 +334,8 @@ def hist_streams(ctx, P, monitors, oracle=None):
 
 
 def run_C09(ctx):
-    P = props.proj_values(with_env=True)
+    # C09 is about the built-ins: outcomes and the digest of the constant entries (user bindings are C12 / C13's business)
+    P = props.proj_values(consts_only=True)
     hist_streams(ctx, P, {"builtins_changed"}, oracle=oracles.oracle_clear)
     # every name of the initial table (as the property documents it: spec side, not the dump) x the four guarded
     # statement kinds, directly and through a copy, then the name itself is probed
@@ -335,7 +352,9 @@ def run_C09(ctx):
 
 def run_C10(ctx):
     rng, quick = ctx["rng"], ctx["quick"]
-    P = props.proj_values(with_env=True)
+    # atomicity is judged on the implementation by the monitor (deep snapshot around every failing statement);
+    # the model comparison is on outcomes and on the built-ins
+    P = props.proj_values(consts_only=True)
     hist_streams(ctx, P, {"failed_stmt_mutated"})
     # texts with one lexical / syntax fault at every position: nothing runs
     cases = []
@@ -358,7 +377,8 @@ def run_C10(ctx):
 
 def run_C11(ctx):
     rng, quick = ctx["rng"], ctx["quick"]
-    P = props.proj_values(with_env=True)
+    # purity is judged on the implementation by the monitors (deep snapshot around Expr::evaluate, evaluated twice)
+    P = props.proj_values(consts_only=True)
     prelude = ("x = 10\ny = 20\npi2 = 2*pi\nf(x) = x + y\ng(y, sin) = y * 2 + x\nh(pi, e) = pi + e\nk(f) = f + 1\n"
                "r(0) = 1\nr(n) = n * r(n - 1)\nbad(a) = a / 0\nbad2(a) = unknown + a\nnest(a) = f(g(a, 1)) + h(a, a)\nsh(x) = k(x) + f(x)\n")
     g = gen.ExprGen(rng, vars_num=("x", "y", "pi2"), funcs=("f", "k", "sh", "nest", "r", "sqrt", "bad", "bad2", "abs"))
@@ -374,8 +394,16 @@ def run_C11(ctx):
 
 
 def run_C12(ctx):
-    P = props.proj_values(with_env=True)
-    hist_streams(ctx, P, {"alias"}, oracle=oracles.oracle_frame)
+    # independence is judged on the implementation by two monitors: after every statement no binding other than the
+    # statement's target has changed (frame), and no two names share one function handle (alias)
+    P = props.proj_values(consts_only=True)
+    hist_streams(ctx, P, {"alias", "frame_violated"}, oracle=oracles.oracle_frame)
+    extra = ["sq(v) = v*v\nhh = sq\ndelete sq\nww = hh(3)\nsq\nhh\n", "sq(v) = v*v\nhh = sq\ndelete sq\nww = hh(3)\nsq(v, k) = 0\nhh\ndelete sq(v)\nhh\nhh(4)\n",
+             "xx = 7\ndup(xx, xx) = xx\nyy = dup(1, 2)\nxx\n", "ff(xx) = xx + 1\npair(ff, ff) = 0\nyy = pair(1, 2)\nff\n", "twice(ww, ww) = ww\nyy = twice(3, 4)\nww\n",
+             "ff(xx) = xx\nhh = (ff)\nhh(xx, yy) = xx*yy\nff\ndelete hh(xx)\nff\n", "id(k) = k\nff(xx) = xx\nhh = id(ff)\ndelete ff(xx)\nhh\nff\n",
+             "ff(xx) = xx+1\nhh = ff\ndelete hh(xx)\nff\nhh\nff(2)\n", "aa = 1\nbb = aa\naa = 2\nbb\ndelete aa\nbb\n",
+             "mm = [1,2;3,4]\nnn = mm\nmm = mm * 2\nnn\n", "ss = sin\ntt = ss\ndelete ss\ntt(0)\nsin(0)\n"]
+    do_stream(ctx, "copies", (gen.hist_case("c%d" % k, [t]) for k, t in enumerate(extra)), P, monitors={"alias", "frame_violated"})
 
 
 def run_C13(ctx):
@@ -516,7 +544,7 @@ def run_C19(ctx):
     from . import front
     front.run_front(ctx, repeat=5 if ctx["quick"] else 10, cross_modes=False, vary_env=True)
     # the in-process half: hash-map order never reaches an observable (same histories, model = implementation)
-    P = props.proj_values(with_env=True, with_text=True, with_info=True)
+    P = props.proj_values(with_info=True)
     do_stream(ctx, "hist-random", props.hist_random(ctx["rng"], 500 if ctx["quick"] else 10000), P)
 
 
